@@ -109,9 +109,6 @@ class EventLog:
 class Result:
     """Outcome of one simulated run."""
 
-    __slots__ = ("violations", "digest", "shape", "states", "faults", "probes", "sim_s",
-                 "nontrivial", "sample", "steps")
-
     def __init__(self):
         self.violations = []      # [(key, message)]
         self.digest = ""
